@@ -64,6 +64,7 @@ def reference(ops):
 
 # real sockets / real time: a verdict must persist when the case is re-run on its own (2 of 3)
 RETRY_PREFIX = "*"
+NEEDS_ENDPOINT_BIN = True
 
 
 def gen_cases(rng, ctx):
@@ -89,6 +90,10 @@ def gen_cases(rng, ctx):
     for mask in ([1, 2, 8, 16, 31, 27] + [4] * (10 if thorough else 5) + [5, 6, 12, 20]):
         l = line("c19_front", [[mask]])
         cases.append(Case(l, l, kind="endpoint:sessions-%d" % mask, nontrivial=mask != 0, meta={"front": True, "mask": mask}))
+    # the real binary (endpoint/src/main.rs) as a process: live sessions, SIGINT, what each client sees, the exit
+    for mask in ([31, 2, 4, 1, 8, 16, 6] + ([31, 27, 21, 0] if thorough else [])):
+        l = line("bin_run", [[1, mask, 0], list(b"u1"), list(b"p1")])
+        cases.append(Case(l, None, kind="process:interrupt-sessions-%d" % mask, nontrivial=mask != 0, meta={"bin": True, "mask": mask}))
     for i in range(120 if thorough else 30):
         ops = []
         for _ in range(rng.choice([8, 11, 14])):
@@ -139,6 +144,23 @@ NAMES = {1: "HTTP/1.1 tunnel in use", 2: "HTTP/2 connection with an open tunnel 
 def judge(case, impl, model, spec, ctx):
     if impl == "999":
         return [("violation", "the shutdown harness panicked")]
+    if case.meta.get("bin"):
+        if impl == "996":
+            ctx.setdefault("skipped_env", []).append(case.kind)
+            return []
+        est, wound, code, ms, lines, hits = untok(impl.split()[0])
+        mask = case.meta["mask"]
+        what = "the endpoint binary with live sessions {%s}, interrupted (SIGINT)" % ", ".join(v for k, v in NAMES.items() if mask & k)
+        if est != mask:
+            return [("disagree", "%s: only sessions %d of %d could be established" % (what, est, mask))]
+        missing = [v for k, v in NAMES.items() if (mask & k) and not (wound & k)]
+        if missing:
+            return [("violation", "%s: the process exited (code %s after %d ms) without a graceful wind-down seen by: %s" % (
+                what, "still running" if code == 1000 else code, ms, "; ".join(missing)))]
+        if code != 0:
+            return [("violation", "%s: every session wound down and was ended by its client, but the process %s" % (
+                what, "was still running 5 s after the signal" if code == 1000 else "exited with code %d" % code))]
+        return []
     if case.meta.get("front"):
         if impl == "996":
             ctx.setdefault("skipped_env", []).append(case.kind)
